@@ -70,10 +70,32 @@ type ref struct {
 	// primary value ("let-init", "or-argument", "mapcar-result", "do-init-step"). Empty = Common Lisp. slip
 	// treats a values object as an ordinary object that may be stored and passed on (rule S2, see judge).
 	keep map[string]bool
+	// special variables (defvar): names, global values, the stack of dynamic bindings
+	scratch   map[*node][]val // mutant do-step-values-kept-per-form only
+	specials  map[string]bool
+	globals   map[string]val
+	globalsOK bool // setq of a variable that is bound nowhere makes a global one (scenario family only)
+	dyn       []dynBinding
+}
+
+// dynBinding is one dynamic binding of a special variable: a slot of a frame. In the language definition the
+// slot belongs to a frame of its own (a closure cannot capture it); with keep["special-captured"] it is the
+// slot of the binding form's own frame, so that a closure made inside the form keeps seeing it (what slip does).
+type dynBinding struct {
+	name string
+	f    *frame
+	i    int
+}
+
+// nonLocalExit is the panic value of return-from.
+type nonLocalExit struct {
+	block string
+	v     val
 }
 
 func newRef(mut string, budget int) *ref {
-	return &ref{mut: mut, funcs: map[string]*closure{}, budget: budget, hits: map[string]int{}, active: map[*closure]int{}}
+	return &ref{mut: mut, funcs: map[string]*closure{}, budget: budget, hits: map[string]int{}, active: map[*closure]int{},
+		specials: map[string]bool{}, globals: map[string]val{}}
 }
 
 func (r *ref) fail(format string, args ...any) {
@@ -132,7 +154,11 @@ func writeVal(b *strings.Builder, v val) {
 	case int64:
 		b.WriteString(strconv.FormatInt(t, 10))
 	case symv:
-		b.WriteString(string(t))
+		if strings.HasPrefix(string(t), "#\\") {
+			b.WriteString("#\\" + strconv.QuoteRune([]rune(string(t)[2:])[0])) // like lisp.Show of a character
+		} else {
+			b.WriteString(string(t))
+		}
 	case tval:
 		b.WriteString("t")
 	case lstv:
@@ -169,6 +195,8 @@ func (r *ref) run(forms []*node) (result val, err string) {
 				err = "ref-error: " + string(t)
 			case refBudget:
 				err = "ref-budget"
+			case nonLocalExit:
+				err = "ref-error: return-from outside its block " + t.block
 			default:
 				panic(rec)
 			}
@@ -238,11 +266,14 @@ func (r *ref) eval(n *node, env *frame) val {
 		case "t":
 			return tval{}
 		}
-		if strings.HasPrefix(n.s, ":") {
-			return symv(n.s) // a keyword evaluates to itself
+		if strings.HasPrefix(n.s, ":") || strings.HasPrefix(n.s, "#\\") {
+			return symv(n.s) // a keyword or a character evaluates to itself
 		}
-		f, i := env.lookup(n.s)
+		f, i := r.lookupVar(n.s, env)
 		if f == nil {
+			if v, has := r.globals[n.s]; has {
+				return v
+			}
 			r.fail("unbound variable %s", n.s)
 		}
 		return f.vals[i]
@@ -354,6 +385,8 @@ func (r *ref) eval(n *node, env *frame) val {
 				}
 			case (k.isSym("otherwise") || k.isSym("t")) && ci == len(args)-2:
 				match = true
+			case k.isSym("nil") && r.mut != "case-nil-clause-matches-nil":
+				// nil in the place of the keys is the empty list of keys: the clause is never selected
 			default:
 				match = eql(datum(k), key)
 			}
@@ -409,6 +442,16 @@ func (r *ref) eval(n *node, env *frame) val {
 		nf := &frame{up: env}
 		var names []string
 		var vals []val
+		if mark := len(r.dyn); r.mut == "special-binding-not-undone-by-return-from" {
+			defer func() {
+				if rec := recover(); rec != nil {
+					panic(rec)
+				}
+				r.unwindDyn(mark)
+			}()
+		} else {
+			defer r.unwindDyn(mark) // the dynamic bindings made here end with the form, however it is left
+		}
 		for _, b := range args[0].l {
 			var name string
 			var init *node
@@ -429,7 +472,7 @@ func (r *ref) eval(n *node, env *frame) val {
 				}
 			}
 			if seq {
-				nf.bind(name, v)
+				r.bindVar(nf, name, v)
 			} else {
 				names = append(names, name)
 				vals = append(vals, v)
@@ -439,7 +482,7 @@ func (r *ref) eval(n *node, env *frame) val {
 			}
 		}
 		for i, name := range names {
-			nf.bind(name, vals[i])
+			r.bindVar(nf, name, vals[i])
 		}
 		return r.progn(args[1:], nf)
 	case "setq":
@@ -449,6 +492,88 @@ func (r *ref) eval(n *node, env *frame) val {
 			r.assign(args[i].s, v, env)
 		}
 		return v
+	case "psetq":
+		vs := make([]val, 0, len(args)/2)
+		for i := 0; i+1 < len(args); i += 2 {
+			vs = append(vs, r.ev1(args[i+1], env))
+			if r.mut == "psetq-sequential" {
+				r.assign(args[i].s, vs[i/2], env)
+			}
+		}
+		for i := 0; i+1 < len(args); i += 2 {
+			r.assign(args[i].s, vs[i/2], env)
+		}
+		r.hit("psetq")
+		return nil
+	case "prog2":
+		r.ev1(args[0], env)
+		v := r.ev1(args[1], env)
+		for _, a := range args[2:] {
+			r.ev1(a, env)
+		}
+		return v
+	case "multiple-value-list":
+		r.hit("mv-list")
+		return mkList(allValues(r.eval(args[0], env)))
+	case "multiple-value-call":
+		fn := r.ev1(args[0], env)
+		var all []val
+		for _, a := range args[1:] {
+			if r.mut == "mv-call-primary-values-only" {
+				all = append(all, r.ev1(a, env))
+				continue
+			}
+			all = append(all, allValues(r.eval(a, env))...)
+		}
+		r.hit("mv-call")
+		return r.apply(fn, all, env)
+	case "multiple-value-setq":
+		vs := allValues(r.eval(args[1], env))
+		for i, s := range args[0].l {
+			if i < len(vs) {
+				r.assign(s.s, vs[i], env)
+			} else {
+				r.assign(s.s, nil, env)
+			}
+		}
+		r.hit("mv-setq")
+		if len(vs) == 0 {
+			return nil
+		}
+		return vs[0]
+	case "multiple-value-prog1":
+		v := r.eval(args[0], env)
+		for _, a := range args[1:] {
+			r.ev1(a, env)
+		}
+		r.hit("mv-prog1")
+		return v
+	case "nth-value":
+		k, ok := r.ev1(args[0], env).(int64)
+		if !ok {
+			r.fail("nth-value: index is not an integer")
+		}
+		vs := allValues(r.eval(args[1], env))
+		r.hit("nth-value")
+		if 0 <= k && k < int64(len(vs)) {
+			return vs[k]
+		}
+		return nil
+	case "block":
+		return r.block(args[0].s, args[1:], env)
+	case "return-from":
+		var v val
+		if 1 < len(args) {
+			v = r.eval(args[1], env)
+		}
+		panic(nonLocalExit{block: args[0].s, v: v})
+	case "defvar":
+		name := args[0].s
+		r.specials[name] = true
+		if _, has := r.globals[name]; !has && 1 < len(args) {
+			r.globals[name] = r.ev1(args[1], env)
+		}
+		return symv(name)
 	case "dolist":
 		spec := args[0].l
 		list := r.ev1(spec[1], env)
@@ -463,11 +588,19 @@ func (r *ref) eval(n *node, env *frame) val {
 				if k == 1 {
 					r.hit("loop-second-iteration")
 				}
+				if r.keep["loop-fresh-binding"] {
+					nf = &frame{up: env}
+					nf.bind(spec[0].s, nil)
+				}
 				nf.vals[0] = it
 				for _, b := range args[1:] {
 					r.ev1(b, nf)
 				}
 			}
+		}
+		if r.keep["loop-fresh-binding"] {
+			nf = &frame{up: env}
+			nf.bind(spec[0].s, nil)
 		}
 		nf.vals[0] = nil
 		if 2 < len(spec) {
@@ -491,11 +624,19 @@ func (r *ref) eval(n *node, env *frame) val {
 			if k == 1 {
 				r.hit("loop-second-iteration")
 			}
+			if r.keep["loop-fresh-binding"] {
+				nf = &frame{up: env}
+				nf.bind(spec[0].s, nil)
+			}
 			nf.vals[0] = k
 			for _, b := range args[1:] {
 				r.ev1(b, nf)
 			}
 			done++
+		}
+		if r.keep["loop-fresh-binding"] {
+			nf = &frame{up: env}
+			nf.bind(spec[0].s, nil)
 		}
 		nf.vals[0] = done // "bound to the number of times the body was executed"
 		if 2 < len(spec) {
@@ -546,8 +687,81 @@ func (r *ref) evalArgs(args []*node, env *frame) []val {
 	return vs
 }
 
+// allValues: the values of a form as a slice (a single value is one value).
+func allValues(v val) []val {
+	if m, ok := v.(mvals); ok {
+		return m
+	}
+	return []val{v}
+}
+
+// lookupVar finds the binding of a variable. A special variable (defvar) is looked up in the stack of dynamic
+// bindings, never in the lexical environment; its global value is r.globals (nil frame returned).
+func (r *ref) lookupVar(name string, env *frame) (*frame, int) {
+	if r.specials[name] {
+		if r.keep["special-captured"] {
+			if f, i := env.lookup(name); f != nil {
+				return f, i
+			}
+		}
+		for k := len(r.dyn) - 1; 0 <= k; k-- {
+			if r.dyn[k].name == name {
+				r.hit("special-dynamic-binding-seen")
+				return r.dyn[k].f, r.dyn[k].i
+			}
+		}
+		return nil, 0
+	}
+	return env.lookup(name)
+}
+
+// bindVar binds a variable of let / let*: lexically in the form's frame, or - a special variable - dynamically.
+func (r *ref) bindVar(nf *frame, name string, v val) {
+	if !r.specials[name] {
+		nf.bind(name, v)
+		return
+	}
+	r.hit("special-bound-by-let")
+	if r.keep["special-captured"] {
+		nf.bind(name, v)
+		r.dyn = append(r.dyn, dynBinding{name, nf, len(nf.vals) - 1})
+		return
+	}
+	cell := &frame{}
+	cell.bind(name, v)
+	r.dyn = append(r.dyn, dynBinding{name, cell, 0})
+}
+
+func (r *ref) unwindDyn(to int) {
+	if to < len(r.dyn) {
+		r.hit("special-binding-undone")
+	}
+	r.dyn = r.dyn[:to]
+}
+
+func (r *ref) block(name string, body []*node, env *frame) (v val) {
+	defer func() {
+		if rec := recover(); rec != nil {
+			if x, ok := rec.(nonLocalExit); ok && x.block == name {
+				r.hit("non-local-exit")
+				v = x.v
+				return
+			}
+			panic(rec)
+		}
+	}()
+	return r.progn(body, env)
+}
+
 func (r *ref) assign(name string, v val, env *frame) {
-	f, i := env.lookup(name)
+	f, i := r.lookupVar(name, env)
+	if f == nil && (r.specials[name] || r.globalsOK) {
+		if _, has := r.globals[name]; !has && !r.specials[name] {
+			r.hit("setq-makes-global")
+		}
+		r.globals[name] = v
+		return
+	}
 	if f == nil {
 		r.fail("setq of unbound variable %s", name)
 	}
@@ -625,6 +839,16 @@ func (r *ref) doLoop(seq bool, args []*node, env *frame) val {
 			}
 		} else {
 			nv := make([]val, len(steps))
+			if r.mut == "do-step-values-kept-per-form" {
+				// one scratch record per do FORM, shared by all its activations
+				if r.scratch == nil {
+					r.scratch = map[*node][]val{}
+				}
+				if r.scratch[args[0]] == nil {
+					r.scratch[args[0]] = nv
+				}
+				nv = r.scratch[args[0]]
+			}
 			for i, s := range steps {
 				nv[i] = r.evKeep("do-init-step", s.step, nf)
 			}
@@ -828,6 +1052,50 @@ func (r *ref) builtin(name string, args []val, env *frame) val {
 			spread = append(spread, l...)
 		}
 		return r.apply(args[0], spread, env)
+	case "values-list":
+		if args[0] == nil {
+			return mvals{}
+		}
+		l, ok := args[0].(lstv)
+		if !ok {
+			r.fail("values-list of a non-list")
+		}
+		if len(l) == 1 {
+			return l[0]
+		}
+		return mvals(append([]val(nil), l...))
+	case "mapc", "maplist":
+		lists := make([]lstv, len(args)-1)
+		n := -1
+		for i, a := range args[1:] {
+			if a != nil {
+				l, ok := a.(lstv)
+				if !ok {
+					r.fail("%s over a non-list", name)
+				}
+				lists[i] = l
+			}
+			if n < 0 || len(lists[i]) < n {
+				n = len(lists[i])
+			}
+		}
+		var out []val
+		for k := 0; k < n; k++ {
+			ca := make([]val, len(lists))
+			for i := range lists {
+				if name == "mapc" {
+					ca[i] = lists[i][k]
+				} else {
+					ca[i] = mkList(append([]val(nil), lists[i][k:]...))
+				}
+			}
+			out = append(out, prim(r.apply(args[0], ca, env)))
+		}
+		r.hit(name)
+		if name == "mapc" {
+			return args[1]
+		}
+		return mkList(out)
 	case "mapcar":
 		lists := make([]lstv, len(args)-1)
 		n := -1
